@@ -56,6 +56,8 @@ def stream_case(draw, tier="quick"):
             streams[sid] = entries
         ctxs.append({"window": draw(sg.window(tbl["t"])) if tbl["t"] is not None or draw(st.booleans()) else None,
                      "streams": streams})
+    if nctx == 3 and draw(st.integers(0, 3)) == 0:
+        ctxs[2]["window"] = ctxs[0]["window"]  # the same context again, not adjacent in the list
     fes = draw(st.lists(st.sampled_from(FRONTENDS), min_size=2, max_size=4, unique=True))
     return {"table": tbl, "contexts": ctxs, "style": draw(st.sampled_from(["iso", "datetime"])), "frontends": fes}
 
